@@ -598,6 +598,29 @@ def rule_ord_table(ctx):
                 names.add(s.value.value)
             elif not (isinstance(s.value, ast.Name) and s.value.id in rd.params()):
                 names_complete = False   # e.g. taken from a dispatch table row
+        elif isinstance(s, ast.Assign) and len(s.targets) == 1 and isinstance(s.targets[0], ast.Tuple) and any(
+                isinstance(t, ast.Attribute) and t.attr == "section_name2" for t in s.targets[0].elts):
+            # `method, self.section_name2 = <row of a class-level table>`: the names are column k of that table
+            k_ = [i for i, t in enumerate(s.targets[0].elts) if isinstance(t, ast.Attribute) and t.attr == "section_name2"][0]
+            row = s.value
+            if isinstance(row, ast.Name):
+                dfs = [a.value for a in walk_shallow(rd.node) if isinstance(a, ast.Assign) and any(isinstance(t, ast.Name) and t.id == row.id for t in a.targets)]
+                row = dfs[0] if len(dfs) == 1 else None
+            tab = None
+            if isinstance(row, ast.Call) and isinstance(row.func, ast.Attribute) and row.func.attr == "get":
+                tab = row.func.value
+            elif isinstance(row, ast.Subscript):
+                tab = row.value
+            got = None
+            if isinstance(tab, ast.Attribute) and isinstance(tab.value, ast.Name) and tab.value.id in ("self", "cls") and rd.cls is not None:
+                vals = [a.value for a in rd.cls.node.body if isinstance(a, ast.Assign) and any(isinstance(t, ast.Name) and t.id == tab.attr for t in a.targets)]
+                if len(vals) == 1 and isinstance(vals[0], ast.Dict) and all(
+                        isinstance(v, ast.Tuple) and len(v.elts) > k_ and isinstance(v.elts[k_], ast.Constant) for v in vals[0].values):
+                    got = {v.elts[k_].value for v in vals[0].values}
+            if got is None:
+                names_complete = False
+            else:
+                names |= got
     fw = p.func(WRITE)
     wnames = set()
     for c in walk_shallow(fw.node):
